@@ -24,6 +24,7 @@ import (
 	"sort"
 	"strings"
 	"sync"
+	"syscall"
 	"time"
 )
 
@@ -144,6 +145,25 @@ func ModDir(engine, digest string) string {
 	return filepath.Join(os.TempDir(), "verif-mods", engine+"-"+Tier, digest)
 }
 
+// LockModDir serialises concurrent users of one generated-module directory
+// (the same case executed by two processes at once: determinism self-test,
+// a mutant run next to a normal run). It returns the unlock function.
+func LockModDir(dir string) func() {
+	os.MkdirAll(filepath.Dir(dir), 0777)
+	f, err := os.OpenFile(dir+".lock", os.O_CREATE|os.O_RDWR, 0666)
+	if err != nil {
+		return func() {}
+	}
+	if err := syscall.Flock(int(f.Fd()), syscall.LOCK_EX); err != nil {
+		f.Close()
+		return func() {}
+	}
+	return func() {
+		syscall.Flock(int(f.Fd()), syscall.LOCK_UN)
+		f.Close()
+	}
+}
+
 // WorkerEnv, if set, returns additional environment variables for worker wid.
 var WorkerEnv func(wid int) []string
 
@@ -168,8 +188,10 @@ func Main(e Engine) {
 		scratch   = flag.String("scratch", os.TempDir(), "scratch directory for worker files")
 		caseTO    = flag.Duration("case-timeout", 5*time.Minute, "watchdog per case")
 		noMin     = flag.Bool("no-minimize", false, "do not minimise failures")
+		dumpDig   = flag.String("dump-digests", "", "worker: append 'index digest' lines to this file (determinism self-test)")
 	)
 	flag.Parse()
+	dumpDigests = *dumpDig
 	Scratch = *scratch
 	Tier = *tier
 	if *replay != "" {
@@ -207,6 +229,8 @@ func envSeed() uint64 {
 
 // ---------------------------------------------------------------------------
 // worker
+
+var dumpDigests string
 
 var watchdogMu sync.Mutex
 var watchdogCase string
@@ -273,6 +297,16 @@ func runWorker(e Engine, tier string, seed uint64, wid, workers int, budget time
 		armWatchdog(fmt.Sprint(i), caseTO)
 		c := e.Generate(mix(seed, i), i, tier)
 		r := e.Execute(c)
+		if dumpDigests != "" {
+			if f, err := os.OpenFile(dumpDigests, os.O_APPEND|os.O_CREATE|os.O_WRONLY, 0666); err == nil {
+				v := ""
+				if r.Violation != nil {
+					v = r.Violation.Class
+				}
+				fmt.Fprintf(f, "%d %016x %d %s %s\n", i, r.Digest, r.Steps, v, r.Infra)
+				f.Close()
+			}
+		}
 		if r.Infra != "" {
 			enc.Encode(workerMsg{Type: "infra", Index: i, Case: c, Infra: r.Infra})
 			out.Flush()
